@@ -22,6 +22,7 @@ type Program struct {
 	mu      sync.Mutex
 	tier    string
 	opts    map[string]string
+	constCache, globalCache, fieldCache, typeCache sync.Map
 }
 
 type pathEnd struct {
@@ -132,6 +133,8 @@ type HarnessRun struct {
 	maxPaths int
 	nPaths   int
 	stop     bool
+	stopWhy  string
+	nViol    int
 	excludeKnown bool
 }
 
@@ -408,8 +411,9 @@ func (e *Engine) mustBe(cond *Term) bool {
 
 // ---- exploration driver ------------------------------------------------------
 
-func (p *Program) runHarness(fn *ssa.Function, nWorkers int, maxPaths int, timeoutMs int, excludeKnown bool) *HarnessRun {
+func (p *Program) runHarness(fn *ssa.Function, nWorkers int, maxPaths int, timeoutMs int, excludeKnown bool, budget time.Duration) *HarnessRun {
 	h := &HarnessRun{name: fn.Name(), fn: fn, maxPaths: maxPaths, excludeKnown: excludeKnown}
+	deadline := time.Now().Add(budget)
 	h.cond = sync.NewCond(&h.mu)
 	h.queue = [][]int{{}}
 	var wg sync.WaitGroup
@@ -437,6 +441,11 @@ func (p *Program) runHarness(fn *ssa.Function, nWorkers int, maxPaths int, timeo
 				h.nPaths++
 				if h.maxPaths > 0 && h.nPaths > h.maxPaths {
 					h.stop = true
+					h.stopWhy = "path cap"
+				}
+				if time.Now().After(deadline) {
+					h.stop = true
+					h.stopWhy = "time budget"
 				}
 				h.mu.Unlock()
 
@@ -456,6 +465,12 @@ func (p *Program) runHarness(fn *ssa.Function, nWorkers int, maxPaths int, timeo
 				h.mu.Lock()
 				h.results = append(h.results, res)
 				h.queue = append(h.queue, sibs...)
+				h.nViol += len(res.violations)
+				if h.nViol >= 300 && !h.stop {
+					// plenty of counterexample candidates to replay: no point in exploring further
+					h.stop = true
+					h.stopWhy = "enough counterexamples"
+				}
 				h.active--
 				h.mu.Unlock()
 				h.cond.Broadcast()
